@@ -438,10 +438,13 @@ class CatalogWriter(AbstractContextManager, HandlesDataChunk):
             )
 
         if self.cache_directory.exists():
-            if overwrite:
-                rmtree(self.cache_directory)
-            else:
+            if not overwrite:
                 raise FileExistsError(f"cache directory exists: {cache_directory}")
+            if not (self.cache_directory / PATCH_INFO_FILE).is_file():
+                raise FileExistsError(
+                    f"overwriting path but it is not a valid catalog: {cache_directory}"
+                )
+            rmtree(self.cache_directory)
 
         self.buffersize = buffersize
         self.cache_directory.mkdir()
